@@ -85,6 +85,10 @@ def strip_comments(src):
             while i < n and src[i] != '\n':
                 i += 1
             continue
+        if src[i] == "'" and (src.startswith("'\"'", i) or src.startswith("'\\\"'", i)):
+            # the char literal '"' (or '\"'): not the start of a string
+            k = src.index("'", i + 1) + 1
+            out.append("' '"); i = k; continue
         if src[i] == '"':
             j = i + 1
             while j < n and src[j] != '"':
@@ -355,6 +359,19 @@ def lean_phase(ctx, prop_module, regen_fn=None):
             ctx.obligation('audit:no-sorry-axiom-native_decide', 'audit', True)
         ctx.notes['build_ok'] = not lo.get('build_failed', False)
         ctx.notes['lean_log_tail'] = lo['log'][-1500:] if lo.get('build_failed') else ''
+        if not ctx.quick and not lo.get('build_failed'):
+            # thorough tier: the toolchain's independent re-checker replays the compiled declarations of the property
+            # module and of every TallyVerif module it depends on into a fresh kernel
+            mods = lean_deps(prop_module)
+            t0 = time.time()
+            try:
+                p = subprocess.run(['lake', 'env', 'leanchecker'] + mods, cwd=LEAN, stdout=subprocess.PIPE, stderr=subprocess.STDOUT,
+                                   text=True, timeout=3000)
+                ok, out = p.returncode == 0, p.stdout[-800:]
+            except Exception as e:        # noqa
+                ok, out = False, f'{type(e).__name__}: {e}'[:400]
+            ctx.obligation(f'audit:leanchecker re-check of {len(mods)} compiled modules', 'audit', ok, error=None if ok else out)
+            ctx.notes['leanchecker_seconds'] = round(time.time() - t0, 1)
     return lo
 
 
